@@ -205,6 +205,13 @@ def run_one(it):
             call(tag + "enable_alarm", lambda: host.enable_alarm(40), 0)
             call(tag + "list_enabled_alarms", lambda: [x["ALID"] for x in host.list_enabled_alarms()], [40])
             call(tag + "list_alarms", lambda: [[x["ALID"], x["ALTX"]] for x in host.list_alarms([40])], [[40, "alarm text"]])
+            # the alarm code byte carries the set bit (0x80) while the alarm is set
+            call(tag + "alarm_code_clear", lambda: [x["ALCD"] for x in host.list_alarms([40])], [1])
+            call(tag + "set_alarm", lambda: (eq.set_alarm(40), "ok")[1], "ok")
+            call(tag + "alarm_code_set", lambda: [x["ALCD"] for x in host.list_alarms([40])], [129])
+            call(tag + "enabled_alarm_code_set", lambda: [[x["ALID"], x["ALCD"]] for x in host.list_enabled_alarms()], [[40, 129]])
+            call(tag + "clear_alarm", lambda: (eq.clear_alarm(40), "ok")[1], "ok")
+            call(tag + "alarm_code_clear_again", lambda: [x["ALCD"] for x in host.list_alarms([40])], [1])
             call(tag + "go_online", lambda: host.go_online(), 0)
             call(tag + "control_state", lambda: eq.control_state.current.name, "ONLINE_REMOTE")
             call(tag + "go_online_again", lambda: host.go_online(), 2)
